@@ -140,8 +140,11 @@ class Term(ABC):
         result: list[str] = []
         if args:
             result.extend(map(Op.str, args))
-        if not Op.is_close(self.height, 1.0):
-            result.append(Op.str(self.height))
+        height = Op.str(self.height)
+        # the height is omitted when it is 1.0 either exactly or as printed (eg, 0.9986 printed as 1.00 with two
+        # decimals would be imported as 1.0 and omitted by the next export)
+        if not (Op.is_close(self.height, 1.0) or Op.is_close(to_float(height), 1.0)):
+            result.append(height)
         return " ".join(result)
 
     def configure(  # noqa: B027  empty method in an abstract base class
